@@ -281,6 +281,10 @@ pub enum AReq {
 
 #[derive(Clone, Debug, Serialize, Deserialize)]
 pub struct RespCase {
+    /// a densely populated set: (set selector, number of attributes n): variations 1..=n hold small integers, so that
+    /// the variation list (2 octets per attribute) crosses the 255/256-octet boundary of the list encodings
+    #[serde(default)]
+    pub dense: Option<(u8, u8)>,
     /// (set selector, variation, value, writable)
     pub attrs: Vec<(u8, u8, AV, bool)>,
     pub reqs: Vec<AReq>,
@@ -304,8 +308,12 @@ pub fn run_resp(case: &RespCase) -> CaseOut {
     let mut handle = DatabaseHandle::new(None, ClassZeroConfig::default(), EventBufferConfig::no_events());
     let mut defined: BTreeMap<(u8, u8), (AV, bool)> = BTreeMap::new();
     let mut bad: Option<String> = None;
+    let dense: Vec<(u8, u8, AV, bool)> = match case.dense {
+        Some((s, n)) => (1..=n.min(253)).map(|v| (s, v, AV::UInt(v as u32), v % 3 == 0)).collect(),
+        None => vec![],
+    };
     handle.transaction(|db| {
-        for (s, var, val, writable) in &case.attrs {
+        for (s, var, val, writable) in dense.iter().chain(case.attrs.iter()) {
             let set = set_of(*s);
             if defined.contains_key(&(set, *var)) {
                 continue;
@@ -398,7 +406,9 @@ pub fn run_resp(case: &RespCase) -> CaseOut {
         out.label("request_refused");
         return out;
     }
-    let objsize = (case.tx.clamp(249, 2048) as usize) - 4;
+    // a variation list larger than a whole fragment can never be reported (outside the domain): make room for the longest
+    let longest_list = sets.iter().map(|s| 7 + 2 * defined.keys().filter(|k| k.0 == *s).count()).max().unwrap_or(0);
+    let objsize = ((case.tx.clamp(249, 2048) as usize) - 4).max(longest_list);
     let mut got: Vec<Delivered> = vec![];
     let mut nfrag = 0;
     let mut done = false;
@@ -463,6 +473,9 @@ pub fn run_resp(case: &RespCase) -> CaseOut {
     if expect.iter().any(|d| matches!(d, Delivered::List(..))) {
         out.label("list");
     }
+    if expect.iter().any(|d| matches!(d, Delivered::List(_, l) if l.len() >= 126)) {
+        out.label("long_list");
+    }
     if got != expect {
         let k = got.iter().zip(expect.iter()).position(|(a, b)| a != b).unwrap_or(got.len().min(expect.len()));
         out.fail(Fail::new(
@@ -500,8 +513,16 @@ impl Prop for AttrResponses {
             1 => (100usize..=255).prop_map(|n| AV::VStr(vec![b'x'; n])),
             1 => (100usize..=255).prop_map(|n| AV::OStr(vec![0x5A; n])),
         ];
-        (proptest::collection::vec((any::<u8>(), 1u8..=253, big, any::<bool>()), 0..n), proptest::collection::vec(req, 1..4), prop_oneof![3 => Just(249u16), 1 => Just(2048u16), 2 => 249u16..600, 1 => 249u16..=2048])
-            .prop_map(|(attrs, reqs, tx)| RespCase { attrs, reqs, tx })
+        let dense = prop_oneof![
+            6 => Just(None),
+            2 => (any::<u8>(), prop_oneof![Just(126u8), Just(127u8), Just(128u8), Just(129u8), Just(253u8), 100u8..=140]).prop_map(Some),
+        ];
+        (dense, proptest::collection::vec((any::<u8>(), 1u8..=253, big, any::<bool>()), 0..n), proptest::collection::vec(req, 1..4), prop_oneof![3 => Just(249u16), 1 => Just(2048u16), 2 => 249u16..600, 1 => 249u16..=2048])
+            .prop_map(|(dense, attrs, reqs, tx)| {
+                // a variation list of n attributes needs 7 + 2n octets in one fragment
+                let need = dense.map(|(_, n)| 4 + 7 + 2 * (n as u16) + 2).unwrap_or(0);
+                RespCase { dense, attrs, reqs, tx: tx.max(need) }
+            })
             .boxed()
     }
     fn cases(tier: Tier) -> u32 {
@@ -514,6 +535,6 @@ impl Prop for AttrResponses {
         run_resp(case)
     }
     fn floors() -> Vec<(&'static str, u32)> {
-        vec![("multi_fragment", 50), ("list", 50)]
+        vec![("multi_fragment", 50), ("list", 50), ("long_list", 10)]
     }
 }
